@@ -89,6 +89,7 @@ func main() {
 			os.Exit(2)
 		}
 		r.Merge(in.Partial)
+		r.AddWall(in.Partial.WallS)
 		r.Technique += "; PLUS " + in.Technique
 		r.Rule += "; schedule part: " + in.Rule
 		r.Assume = append(r.Assume, in.Assume...)
